@@ -854,9 +854,9 @@ theorem MM_eq (a b j k : ℤ) : j ≥ 0 ∧ j ≤ k →
   · intro h
     rw [h]
 
-/-- What theory.py ACTUALLY emits for two remainders of one numerator while `_ax_mm` is defined twice
-(the product version shadows the remainder version and reads `x % pow2 a` as `x * pow2 a`):
-that formula is FALSE (`x = 4`, `a = 1`, `b = 2`). -/
+/-- What theory.py emitted (before fix b15ccef) for two remainders of one numerator while `_ax_mm` was defined twice
+(the product version shadowed the remainder version and read `x % pow2 a` as `x * pow2 a`):
+that formula is false (`x = 4`, `a = 1`, `b = 2`). -/
 theorem MM_lt_on_remainders_is_false :
     ¬ (∀ x a b : ℤ, a ≥ 0 ∧ a ≤ b → ((x % pow2 a < x % pow2 b) ↔ (x < x * pow2 (b - a)))) := by
   intro h
